@@ -97,10 +97,28 @@ def lean_sources():
     return sorted(res)
 
 
-def lean_source_audit():
-    """forbidden tokens outside comments/strings in the library (not the driver)"""
+def module_closure(module):
+    """source files of `module` and everything of this library it imports, transitively"""
+    seen, todo = {}, [module]
+    while todo:
+        m = todo.pop()
+        if m in seen or not (m == "YgmVerif" or m.startswith("YgmVerif.")):
+            continue
+        p = os.path.join(LEAN, *m.split(".")) + ".lean"
+        if not os.path.exists(p):
+            continue
+        seen[m] = p
+        for line in strip_lean_comments(open(p).read()).split("\n"):
+            mm = re.match(r"\s*(?:public\s+)?import\s+(\S+)", line)
+            if mm:
+                todo.append(mm.group(1))
+    return sorted(seen.values())
+
+
+def lean_source_audit(module=None):
+    """forbidden tokens outside comments/strings in the modules a property depends on"""
     hits = []
-    for p in lean_sources():
+    for p in (module_closure(module) if module else lean_sources()):
         code = strip_lean_comments(open(p).read())
         for ln, line in enumerate(code.split("\n"), 1):
             for tok in FORBIDDEN:
@@ -115,11 +133,13 @@ def lean_source_audit():
     return hits
 
 
-def lean_build():
-    """lake build of library + driver; returns (ok, log).  Serialised by a lock."""
+def lean_build(targets=None):
+    """lake build of the given targets (default: whole library + driver); returns (ok, log, wall).
+    Serialised by a lock.  A property's check builds only its own Props module and the driver,
+    so an unrelated module that does not build cannot disturb it."""
     with Lock("lean"):
         t0 = time.time()
-        r = sh(["lake", "build"], cwd=LEAN)
+        r = sh(["lake", "build"] + (targets or []), cwd=LEAN)
         log = (r.stdout + r.stderr)
         return r.returncode == 0, log, time.time() - t0
 
@@ -129,15 +149,18 @@ def model_bin():
 
 
 def obligations_for(pid):
-    d = json.load(open(os.path.join(LEAN, "obligations.json")))
-    return d.get(pid, [])
+    """lean/obligations/<pid>.json: {"module": "YgmVerif.Props.Cxx", "theorems": [...]}"""
+    p = os.path.join(LEAN, "obligations", pid + ".json")
+    if not os.path.exists(p):
+        return {"module": "YgmVerif.Props." + pid, "theorems": []}
+    return json.load(open(p))
 
 
-def lean_axioms(theorems):
+def lean_axioms(theorems, module="YgmVerif"):
     """returns {theorem: (ok, axioms-or-error)} via `#print axioms`"""
     if not theorems:
         return {}
-    src = "import YgmVerif\n" + "".join(f"#print axioms {t}\n" for t in theorems)
+    src = f"import {module}\n" + "".join(f"#print axioms {t}\n" for t in theorems)
     with tempfile.NamedTemporaryFile("w", suffix=".lean", delete=False, dir=BUILD) as f:
         f.write(src)
         path = f.name
@@ -165,8 +188,9 @@ def lean_axioms(theorems):
 
 def lean_obligations(pid, tier):
     """Step 1 of every check: build, source audit, axiom audit of the property's theorems."""
-    ok, log, wall = lean_build()
-    theorems = obligations_for(pid)
+    obl = obligations_for(pid)
+    theorems, module = obl["theorems"], obl["module"]
+    ok, log, wall = lean_build([module, "ygm_model"])
     info = {"build_ok": ok, "build_wall_s": round(wall, 1), "theorems": theorems,
             "discharged": [], "failed": [], "source_audit": [], "leanchecker": None}
     if not ok:
@@ -174,9 +198,10 @@ def lean_obligations(pid, tier):
         info["failed"] = [{"theorem": t, "why": "library does not build"} for t in theorems]
         info["build_errors"] = errs[:20]
         return info
-    hits = lean_source_audit()
+    hits = lean_source_audit(module)
+    info["modules_audited"] = [os.path.relpath(p, LEAN) for p in module_closure(module)]
     info["source_audit"] = hits
-    ax = lean_axioms(theorems)
+    ax = lean_axioms(theorems, module)
     for t in theorems:
         good, detail = ax.get(t, (False, ["missing"]))
         if good and not hits:
@@ -184,7 +209,7 @@ def lean_obligations(pid, tier):
         else:
             info["failed"].append({"theorem": t, "why": "axioms/audit", "detail": detail, "audit": hits[:5]})
     if tier == "thorough":
-        mod = "YgmVerif.Props." + pid
+        mod = module
         r = sh(["lake", "env", "leanchecker", mod], cwd=LEAN)
         info["leanchecker"] = {"module": mod, "ok": r.returncode == 0, "tail": (r.stdout + r.stderr)[-300:]}
         if r.returncode != 0:
@@ -461,6 +486,7 @@ def finish(pid, tier, res, ob, t0):
         "theorems": [d["theorem"] for d in ob["discharged"]],
         "theorems_failed": ob["failed"],
         "source_audit_hits": ob["source_audit"],
+        "modules_audited": ob.get("modules_audited"),
         "leanchecker": ob["leanchecker"],
         "evaluations": res.evaluations,
         "distinct_nontrivial": len(res.distinct),
